@@ -136,6 +136,9 @@ Section Pipeline.
   Definition tc_cmp_val (t o : F * F) : F :=
     fadd ops (fsub ops (fst t) (fst o)) (fsub ops (snd t) (snd o)).
 
+  (* Time.__lt__ *)
+  Definition tc_time_lt (t o : F * F) : bool := flt ops (tc_cmp_val t o) f_zero.
+
   Definition tc_epoch : F * F := (fz TC_EPOCH_JD1, f_mhalf).
   Definition tc_max_time : F * F := (fz TC_MAX_JD1, f_mhalf).
 
@@ -145,16 +148,22 @@ Section Pipeline.
     let '(a1, a2) := tc_day_frac_div (fst t) (snd t) f_one in
     tc_day_frac (fsub ops a1 (fst tc_epoch)) (fsub ops a2 (snd tc_epoch)).
 
-  (* TimeConverter.astropy_to_nsec on a TAI time given by its (jd1, jd2) *)
-  Definition tc_jd_to_nsec (t : F * F) : Z :=
-    let value :=
-      if flt ops (tc_cmp_val t tc_epoch) f_zero then tc_epoch
-      else if flt ops f_zero (tc_cmp_val t tc_max_time) then tc_max_time
-      else t in
-    let '(d1, d2) := tc_delta value in
-    let jd1 := ffloor ops d1 in                     (* divmod(delta.jd1, 1) *)
+  (* astropy_to_nsec: `if value < self.epoch: value = self.epoch elif value > self.max_time: value = self.max_time` *)
+  Definition tc_clamp (t : F * F) : F * F :=
+    if flt ops (tc_cmp_val t tc_epoch) f_zero then tc_epoch
+    else if flt ops f_zero (tc_cmp_val t tc_max_time) then tc_max_time
+    else t.
+
+  (* jd1, extra_jd2 = divmod(delta.jd1, 1);
+     int(jd1) * NSEC_PER_DAY + int(round((delta.jd2 + extra_jd2) * NSEC_PER_DAY)) *)
+  Definition tc_delta_to_nsec (d : F * F) : Z :=
+    let '(d1, d2) := d in
+    let jd1 := ffloor ops d1 in
     let extra := fsub ops d1 jd1 in
     ftoZ ops jd1 * TC_NPD + ftoZ ops (frint ops (fmul ops (fadd ops d2 extra) (fz TC_NPD))).
+
+  (* TimeConverter.astropy_to_nsec on a TAI time given by its (jd1, jd2) *)
+  Definition tc_jd_to_nsec (t : F * F) : Z := tc_delta_to_nsec (tc_delta (tc_clamp t)).
 
   Definition tc_roundtrip (n : Z) : Z := tc_jd_to_nsec (tc_nsec_to_jd n).
 End Pipeline.
